@@ -18,6 +18,12 @@ def escape_quotes_and_backslashes(s):
 _BARE_PATH_STEP_RE = re.compile(r"^[a-zA-Z_][a-zA-Z0-9_]*\Z")
 
 
+# One step of an object path given as text: a quoted or a bare name and,
+# optionally, an index.
+_QUOTED_PATH_STEP_RE = re.compile(r"^'((?:[^'\\]|\\.)*)'(?:\[([^\]]*)\])?\Z")
+_PATH_STEP_RE = re.compile(r"(?:'(?:[^'\\]|\\.)*'|[^.'\[\]]+)(?:\[[^\]]*\])?")
+
+
 # ... and is not one of its keywords.
 _PATTERN_KEYWORDS = frozenset((
     "AND", "OR", "NOT", "FOLLOWEDBY", "LIKE", "MATCHES", "ISSUPERSET",
@@ -275,6 +281,15 @@ class _ObjectPathComponent(object):
                 # holds the key itself (it is escaped again when printed).
                 name = re.sub(r"\\(.)", r"\1", name)
             return BasicObjectPathComponent(name, False)
+        elif component_name.startswith("'"):
+            # a quoted step, written as in a pattern: 'key' or 'key'[index]
+            m = _QUOTED_PATH_STEP_RE.match(component_name)
+            if not m:
+                raise ValueError("Invalid object path step: " + component_name)
+            name = re.sub(r"\\(.)", r"\1", m.group(1))
+            if m.group(2) is not None:
+                return ListObjectPathComponent(name, m.group(2))
+            return BasicObjectPathComponent(name, False)
         elif component_name.endswith("_ref"):
             return ReferenceObjectPathComponent(component_name)
         elif component_name.find("[") != -1:
@@ -359,8 +374,12 @@ class ObjectPath(object):
         Args:
             lhs (str): object path of left-hand-side component of expression
         """
-        path_as_parts = lhs.split(":")
-        return ObjectPath(path_as_parts[0], path_as_parts[1].split("."))
+        object_type_name, colon, path = lhs.partition(":")
+        # (A quoted step may contain the separators.)
+        steps = [m.group(0) for m in _PATH_STEP_RE.finditer(path)]
+        if not colon or ".".join(steps) != path:
+            raise ValueError("Invalid object path: " + lhs)
+        return ObjectPath(object_type_name, steps)
 
 
 class _PatternExpression(object):
